@@ -22,7 +22,17 @@ PLOT = "andes/plot.py"
 
 def rule_channel_order(ctx, repo):
     u = F.method(repo, "DAETimeSeries", "unpack_np", DAE)
-    ok = Q.has("self.txyz = np.hstack((self.t.reshape((-1, 1)), self.x, self.y, self.z))", u.fn)
+    # the column order, whatever stacking function spells it: hstack / column_stack / concatenate(axis=1) of (t as a column, x, y, z)
+    ok = False
+    for st_ in walk_noscope(u.fn):
+        if isinstance(st_, ast.Assign) and dotted(st_.targets[0]) == "self.txyz" and isinstance(st_.value, ast.Call) and st_.value.args:
+            fname = (dotted(st_.value.func) or "").split(".")[-1]
+            seq = st_.value.args[0]
+            axis_ok = fname in ("hstack", "column_stack") or (fname == "concatenate" and any(
+                k.arg == "axis" and isinstance(k.value, ast.Constant) and k.value.value in (1, -1) for k in st_.value.keywords))
+            if axis_ok and isinstance(seq, (ast.Tuple, ast.List)) and len(seq.elts) == 4:
+                names = [src(e_) for e_ in seq.elts]
+                ok = names[0].startswith("self.t") and names[1:] == ["self.x", "self.y", "self.z"]
     ctx.check(ok, "C15.order", "unpack_np/txyz", "txyz = [t | x | y | z]", "column order of the exported matrix is not t, x, y, z", u.W())
     ok = Q.has("self.t = np.array(list(self._ys.keys()))", u.fn)
     ctx.check(ok, "C15.order", "unpack_np/t", "time axis = keys of the stored rows", "time axis no longer taken from the stored row keys", u.W())
